@@ -136,6 +136,8 @@ func (cw *c12world) enumerate(maxViews int, reduced bool, allocShape [2]int) []c
 func (cw *c12world) apply(o c12op, c *core.Ctx) (ps []mon.Problem) {
 	w := cw.w
 	t := cw.t
+	core.Enter()
+	defer core.Leave()
 	defer func() {
 		if r := recover(); r != nil {
 			ps = append(ps, mon.Problem{Kind: "panic", Msg: fmt.Sprintf("%v panicked: %v", o, r)})
